@@ -722,6 +722,271 @@ func c13DoubleCloseThenGC(c *vf.Case, ioc *sonic.IO) {
 	runtime.GC()
 }
 
+
+// c13GCRearm: like c13GC, but the operation in flight when the references are dropped is one that was started from
+// inside the object's own completion handler (the usual read loop): first operation deferred, its completion re-issues
+// the operation, which is deferred again; only then are the references dropped and the collector run.
+func c13GCRearm(c *vf.Case, ioc *sonic.IO) {
+	r := c.Rng
+	kinds := []string{"conn-read", "packet-conn-read", "udp-peer-read", "listener-accept", "timer"}
+	for _, kind := range kinds {
+		if c.Failed() {
+			return
+		}
+		finalized := new(int32)
+		first, completed := 0, 0
+		var gotErr error
+		var peerFds []int
+		var trigger func()
+		vfd := -1
+		func() {
+			sentinel := &c13Sentinel{}
+			runtime.SetFinalizer(sentinel, func(*c13Sentinel) { *finalized = 1 })
+			switch kind {
+			case "conn-read":
+				lfd, port, _ := rawpeer.Listen4()
+				defer syscall.Close(lfd)
+				cn, err := sonic.Dial(ioc, "tcp", rawpeer.AddrOf(port))
+				if err != nil {
+					c.Failf("harness-setup", "%v", err)
+					return
+				}
+				pfd, _, _ := rawpeer.Accept(lfd)
+				peerFds = append(peerFds, pfd)
+				vfd = cn.RawFd()
+				cn.AsyncRead(make([]byte, 64), func(err error, n int) {
+					first++
+					cn.AsyncRead(make([]byte, 64), func(err error, n int) { completed++; gotErr = err; _ = sentinel.pad[0]; _ = cn.Close() })
+				})
+				trigger = func() { _, _ = rawpeer.WriteSome(pfd, []byte("0123456789")) }
+			case "packet-conn-read":
+				p, err := sonic.NewPacketConn(ioc, "udp", "127.0.0.1:0")
+				if err != nil {
+					c.Failf("harness-setup", "%v", err)
+					return
+				}
+				sa, _ := syscall.Getsockname(p.RawFd())
+				pfd, _, _ := rawpeer.UDP4([4]byte{127, 0, 0, 1})
+				peerFds = append(peerFds, pfd)
+				vfd = p.RawFd()
+				p.AsyncReadFrom(make([]byte, 64), func(err error, n int, _ net.Addr) {
+					first++
+					p.AsyncReadFrom(make([]byte, 64), func(err error, n int, _ net.Addr) { completed++; gotErr = err; _ = sentinel.pad[0]; _ = p.Close() })
+				})
+				trigger = func() { _ = syscall.Sendto(pfd, []byte("0123456789"), 0, sa) }
+			case "udp-peer-read":
+				p, err := multicast.NewUDPPeer(ioc, "udp", "127.0.0.1:0")
+				if err != nil {
+					c.Failf("harness-setup", "%v", err)
+					return
+				}
+				port := p.LocalAddr().Port
+				pfd, _, _ := rawpeer.UDP4([4]byte{127, 0, 0, 1})
+				peerFds = append(peerFds, pfd)
+				vfd = p.NextLayer().RawFd()
+				p.AsyncRead(make([]byte, 64), func(err error, n int, _ netip.AddrPort) {
+					first++
+					p.AsyncRead(make([]byte, 64), func(err error, n int, _ netip.AddrPort) { completed++; gotErr = err; _ = sentinel.pad[0]; _ = p.Close() })
+				})
+				trigger = func() {
+					_ = syscall.Sendto(pfd, []byte("0123456789"), 0, &syscall.SockaddrInet4{Addr: [4]byte{127, 0, 0, 1}, Port: port})
+				}
+			case "listener-accept":
+				l, err := sonic.Listen(ioc, "tcp", "127.0.0.1:0", sonicopts.Nonblocking(true))
+				if err != nil {
+					c.Failf("harness-setup", "%v", err)
+					return
+				}
+				sa, _ := syscall.Getsockname(l.RawFd())
+				port := sa.(*syscall.SockaddrInet4).Port
+				vfd = l.RawFd()
+				l.AsyncAccept(func(err error, cn sonic.Conn) {
+					first++
+					if cn != nil {
+						cn.Close()
+					}
+					l.AsyncAccept(func(err error, cn sonic.Conn) {
+						completed++
+						gotErr = err
+						if cn != nil {
+							cn.Close()
+						}
+						_ = sentinel.pad[0]
+						_ = l.Close()
+					})
+				})
+				trigger = func() {
+					fd, _, _ := rawpeer.Connect4(port)
+					peerFds = append(peerFds, fd)
+				}
+			case "timer":
+				t, err := sonic.NewTimer(ioc)
+				if err != nil {
+					c.Failf("harness-setup", "%v", err)
+					return
+				}
+				_ = t.ScheduleOnce(2*time.Millisecond, func() {
+					first++
+					_ = t.ScheduleOnce(5*time.Millisecond, func() { completed++; _ = sentinel.pad[0]; _ = t.Close() })
+				})
+				trigger = func() { time.Sleep(6 * time.Millisecond) }
+			}
+		}()
+		if c.Failed() {
+			return
+		}
+		trigger()
+		if why := c13Await(ioc, vfd, unix.POLLIN, &first); why == "skip" {
+			c.Count("probes_skipped_trigger_never_reached_the_descriptor", 1)
+			continue
+		} else if first != 1 {
+			c.Failf("harness-setup", "%s: first completion not delivered (%s)", kind, why)
+			return
+		}
+		if completed != 0 {
+			c.Failf("harness-setup", "%s: the re-issued operation completed at once", kind)
+			return
+		}
+		var junk [][]byte
+		for round := 0; round < 3; round++ {
+			runtime.GC()
+			for i := 0; i < 2000; i++ {
+				junk = append(junk, make([]byte, r.Range(16, 4096)))
+			}
+			junk = junk[:0]
+		}
+		runtime.GC()
+		time.Sleep(time.Millisecond)
+		if *finalized == 1 {
+			c.Failf("owner-of-in-flight-operation-collected/"+kind+"-reissued-from-its-handler", "%s: the operation was re-issued from inside its own completion handler and deferred again; with every reference dropped the object was collected while that operation was in flight", kind)
+			return
+		}
+		trigger()
+		why := c13Await(ioc, vfd, unix.POLLIN, &completed)
+		c.Logf("%s re-issued from its handler: after GC: completed=%d err=%v %s", kind, completed, gotErr, why)
+		if why == "skip" {
+			c.Count("probes_skipped_trigger_never_reached_the_descriptor", 1)
+		} else if completed != 1 || gotErr != nil {
+			c.Failf("completion-not-delivered-after-gc/"+kind+"-reissued-from-its-handler", "%s: operation re-issued from its own handler, references dropped, GC: completion delivered %d times err=%v (%s)", kind, completed, gotErr, why)
+		}
+		for _, fd := range peerFds {
+			if fd >= 0 {
+				syscall.Close(fd)
+			}
+		}
+		c.Count("gc_probes_reissued_from_handler", 1)
+		c.Cover("gc_probe_kinds", kind+"-reissued")
+	}
+	runtime.GC()
+}
+
+// c13CloseOrders: Close releases the object's descriptor whatever the teardown order - object first, IO context first,
+// object twice - also while an operation of the object is deferred to the poller.
+func c13CloseOrders(c *vf.Case) {
+	kinds := []string{"conn", "listener", "packet-conn", "udp-peer", "timer"}
+	for _, kind := range kinds {
+		for order := 0; order < 3; order++ {
+			for _, deferred := range []bool{false, true} {
+				if c.Failed() {
+					return
+				}
+				before := rawpeer.TakeCensus()
+				what := fmt.Sprintf("%s (operation deferred: %v), order %s", kind, deferred, []string{"object.Close, IO.Close", "IO.Close, object.Close", "object.Close x2, IO.Close"}[order])
+				ioc, err := sonic.NewIO()
+				if err != nil {
+					c.Failf("harness-setup", "%v", err)
+					return
+				}
+				var closeObj func() error
+				var peerFds []int
+				calls := 0
+				switch kind {
+				case "conn":
+					lfd, port, _ := rawpeer.Listen4()
+					cn, err := sonic.Dial(ioc, "tcp", rawpeer.AddrOf(port))
+					if err != nil {
+						syscall.Close(lfd)
+						ioc.Close()
+						c.Failf("harness-setup", "%v", err)
+						return
+					}
+					pfd, _, _ := rawpeer.Accept(lfd)
+					syscall.Close(lfd)
+					peerFds = append(peerFds, pfd)
+					if deferred {
+						cn.AsyncRead(make([]byte, 8), func(error, int) { calls++ })
+					}
+					closeObj = cn.Close
+				case "listener":
+					l, err := sonic.Listen(ioc, "tcp", "127.0.0.1:0", sonicopts.Nonblocking(true))
+					if err != nil {
+						ioc.Close()
+						c.Failf("harness-setup", "%v", err)
+						return
+					}
+					if deferred {
+						l.AsyncAccept(func(error, sonic.Conn) { calls++ })
+					}
+					closeObj = l.Close
+				case "packet-conn":
+					p, err := sonic.NewPacketConn(ioc, "udp", "127.0.0.1:0")
+					if err != nil {
+						ioc.Close()
+						c.Failf("harness-setup", "%v", err)
+						return
+					}
+					if deferred {
+						p.AsyncReadFrom(make([]byte, 8), func(error, int, net.Addr) { calls++ })
+					}
+					closeObj = p.Close
+				case "udp-peer":
+					p, err := multicast.NewUDPPeer(ioc, "udp", "127.0.0.1:0")
+					if err != nil {
+						ioc.Close()
+						c.Failf("harness-setup", "%v", err)
+						return
+					}
+					if deferred {
+						p.AsyncRead(make([]byte, 8), func(error, int, netip.AddrPort) { calls++ })
+					}
+					closeObj = p.Close
+				case "timer":
+					t, err := sonic.NewTimer(ioc)
+					if err != nil {
+						ioc.Close()
+						c.Failf("harness-setup", "%v", err)
+						return
+					}
+					if deferred {
+						_ = t.ScheduleOnce(time.Hour, func() { calls++ })
+					}
+					closeObj = t.Close
+				}
+				switch order {
+				case 0:
+					_ = closeObj()
+					_ = ioc.Close()
+				case 1:
+					_ = ioc.Close()
+					_ = closeObj()
+				default:
+					_ = closeObj()
+					_ = closeObj()
+					_ = ioc.Close()
+				}
+				for _, fd := range peerFds {
+					syscall.Close(fd)
+				}
+				c.Count("teardown_orders_checked", 1)
+				c.Cover("teardown_orders", what)
+				if !censusDiff(c, "teardown/"+kind, what, before) {
+					return
+				}
+			}
+		}
+	}
+}
+
 type c13Sentinel struct{ pad [64]byte }
 
 // c13Await polls the loop until the victim's completion arrives. The verdict is taken on logical steps: only once
@@ -988,6 +1253,12 @@ func runC13(c *vf.Case) {
 		c.NonTrivial(fmt.Sprintf("double-close/%d", c.Index))
 	default:
 		c13GC(c, ioc)
+		if !c.Failed() {
+			c13GCRearm(c, ioc)
+		}
+		if !c.Failed() {
+			c13CloseOrders(c)
+		}
 		c.NonTrivial(fmt.Sprintf("gc/%d", c.Index))
 	}
 }
@@ -997,7 +1268,7 @@ func init() {
 		ID:        "C13",
 		Level:     "fault_enumeration",
 		Technique: "fault enumeration under runtime monitors: /proc/self/fd census before/after every failing constructor (refused, bind conflict, failing option, bad path, bad/truncated handshake responses, descriptor-table exhaustion at the k-th allocation for every k via a packed table + RLIMIT_NOFILE), double-Close matrix with descriptor reuse checked by census, GC probes with a finalizer sentinel captured by the pending callback",
-		Rule: "cases rotate over five probe families: (0) for each of {NewIO, NewTimer, Listen, NewPacketConn, NewUDPPeer, Open, NewMirroredBuffer}: pack the descriptor table and lower RLIMIT_NOFILE so that only k more descriptors can be allocated, for k = 0,1,2,... until the constructor succeeds; (1) 13 failing constructors/connects (refused, unroutable with timeout, bind to foreign address, bind conflict, failing option, bad address, nonexistent path, invalid size) x 30 repetitions; (2) websocket Handshake and AsyncHandshake against a raw server that closes after 0 / k bytes, answers 200, a wrong accept key, garbage, or is not there x 8 repetitions; (3) the 7x7 matrix 'close A, create B, close A again' over {conn, listener, packet conn, UDP peer, timer, file, IO}; (4) GC probes for {conn read, conn write, packet conn read, UDP peer read, listener accept, timer} with references dropped, 4 collections and heap churn; the census is always taken without running the GC; " +
+		Rule: "cases rotate over five probe families: (0) for each of {NewIO, NewTimer, Listen, NewPacketConn, NewUDPPeer, Open, NewMirroredBuffer}: pack the descriptor table and lower RLIMIT_NOFILE so that only k more descriptors can be allocated, for k = 0,1,2,... until the constructor succeeds; (1) 13 failing constructors/connects (refused, unroutable with timeout, bind to foreign address, bind conflict, failing option, bad address, nonexistent path, invalid size) x 30 repetitions; (2) websocket Handshake and AsyncHandshake against a raw server that closes after 0 / k bytes, answers 200, a wrong accept key, garbage, or is not there x 8 repetitions; (3) the 7x7 matrix 'close A, create B, close A again' over {conn, listener, packet conn, UDP peer, timer, file, IO}; (4) GC probes for {conn read, conn write, packet conn read, UDP peer read, listener accept, timer} with references dropped, 4 collections and heap churn, the same with the operation re-issued from inside its own completion handler, and the teardown orders {object then IO, IO then object, object twice then IO} for {conn, listener, packet conn, UDP peer, timer} with and without a deferred operation, each followed by a census; the census is always taken without running the GC; " +
 			"every case is non-trivial; distinct = (family, case index)",
 		Assumptions: []string{
 			"the Go runtime opens descriptors lazily: every probe is warmed up once before its baseline census",
